@@ -5,6 +5,12 @@ import GqlModel.Validate.Engine
   `retrieveTopFieldNames.walk`: `inFragmentRecursive` is never reset, so every fragment is
   entered at most once; a spread whose `Definition` is nil makes the CURRENT `walk` invocation
   return (the rest of that selection set is skipped, the callers go on).
+
+  `applies(typeCondition)`: an inline fragment / fragment spread contributes root fields only if
+  its type condition can apply to the subscription root type: no condition, the root type itself,
+  or an abstract type (interface / union) whose `GetPossibleTypes` contains the root type; unknown
+  types and other non-abstract types do not apply.  For a spread the fragment is still entered in
+  `inFragmentRecursive` before the test.
 -/
 namespace Gql.Validate.Rules
 open Gql Gql.Validate
@@ -15,28 +21,38 @@ structure TopState where
 
 abbrev TopJump := Selections → TopState → Option TopState
 
+/-- the closure `applies` of `retrieveTopFieldNames`; `root` is `schema.Subscription.Name` -/
+def topApplies (s : SV) (root : Name) (tc : Name) : Bool :=
+  if tc == [] || tc == root then true
+  else match s.type? tc with
+    | none => false
+    | some dfn => isAbstractType dfn && (s.possible dfn.name).contains root
+
 /-- one `walk(selectionSet)` invocation -/
-def topWalk (l : Links) (d : QueryDoc) (jump : TopJump) : Selections → TopState → Option TopState
+def topWalk (s : SV) (root : Name) (l : Links) (d : QueryDoc) (jump : TopJump) : Selections → TopState → Option TopState
   | .nil, st => some st
   | .cons (.field al nm _ _ _ p) rest, st =>
-    topWalk l d jump rest { st with fields := st.fields ++ [(if al != [] then al else nm, nm, p)] }
-  | .cons (.inline _ _ sub _) rest, st =>
-    match topWalk l d jump sub st with
-    | none => none
-    | some st' => topWalk l d jump rest st'
+    topWalk s root l d jump rest { st with fields := st.fields ++ [(if al != [] then al else nm, nm, p)] }
+  | .cons (.inline tc _ sub _) rest, st =>
+    if topApplies s root tc then
+      match topWalk s root l d jump sub st with
+      | none => none
+      | some st' => topWalk s root l d jump rest st'
+    else topWalk s root l d jump rest st
   | .cons (.spread nm _ p) rest, st =>
     match l.spreadDef d nm p with
     | none => some st          -- `return`
     | some f =>
-      if st.inFrag.contains f.name then topWalk l d jump rest st
-      else
+      if st.inFrag.contains f.name then topWalk s root l d jump rest st
+      else if topApplies s root f.typeCond then
         match jump f.sel { st with inFrag := f.name :: st.inFrag } with
         | none => none
-        | some st' => topWalk l d jump rest st'
+        | some st' => topWalk s root l d jump rest st'
+      else topWalk s root l d jump rest { st with inFrag := f.name :: st.inFrag }
 
-def topLevel (l : Links) (d : QueryDoc) : Nat → TopJump
+def topLevel (s : SV) (root : Name) (l : Links) (d : QueryDoc) : Nat → TopJump
   | 0 => fun _ _ => none
-  | n + 1 => fun sels st => topWalk l d (topLevel l d n) sels st
+  | n + 1 => fun sels st => topWalk s root l d (topLevel s root l d n) sels st
 
 /-- duplicates are removed by RESPONSE name -/
 def uniqByName : List (Name × Name × Pos) → List Name → List (Name × Name × Pos)
@@ -50,7 +66,8 @@ def singleFieldSubscriptionsStep (s : SV) (d : QueryDoc) (e : Event) : Except By
   | .operation op _ =>
     if s.subscription.isNone || op.op != opSubscription then .ok []
     else
-      match topLevel e.links d (d.frags.length + 1) op.sel { fields := [], inFrag := [] } with
+      -- `schema.Subscription` is not nil here
+      match topLevel s (s.subscription.getD []) e.links d (d.frags.length + 1) op.sel { fields := [], inFrag := [] } with
       | none => .error (str "model: out of fuel")
       | some st =>
         let fields := uniqByName st.fields []
